@@ -43,12 +43,12 @@ type rx struct {
 	info  *types.Info
 	fn    *core.Fn // decoderMain
 	g     *cfgq.Graph
-	entry types.Object          // e of `for e := range ipipe`
-	loop  *ast.RangeStmt        // that loop
-	enc   map[types.Object]bool // local closures equivalent to base64.StdEncoding.EncodeToString
-	tojs  map[types.Object]bool // local closures that json.Marshal their argument
-	other map[types.Object]bool // local closures using encoding/base64 in another way (not judged)
-	buf   types.Object          // per-entry buffer
+	entry types.Object            // e of `for e := range ipipe`
+	loop  *ast.RangeStmt          // that loop
+	kinds map[types.Object]string // classification of helper functions/closures: "b64", "b64other", "json", ""
+	errCk map[ast.Node]bool       // marshal-error discipline already checked for this function
+	alias map[types.Object]bool   // further names of the entry (parameter of a one-level helper)
+	buf   types.Object            // per-entry buffer
 	litOf map[types.Object]*ast.CompositeLit
 }
 
@@ -75,7 +75,7 @@ func Run(c *core.Ctx) {
 	dm := c.Func(pkgRun, "CmdDecode", "decoderMain")
 	dec := c.Func(pkgRun, "CmdDecode", "decode")
 	if dm != nil {
-		x := &rx{c: c, info: dm.Pkg.TypesInfo, fn: dm, g: cfgq.Of(c.Program, dm), enc: map[types.Object]bool{}, other: map[types.Object]bool{}, tojs: map[types.Object]bool{}, litOf: map[types.Object]*ast.CompositeLit{}}
+		x := &rx{c: c, info: dm.Pkg.TypesInfo, fn: dm, g: cfgq.Of(c.Program, dm), kinds: map[types.Object]string{}, errCk: map[ast.Node]bool{}, litOf: map[types.Object]*ast.CompositeLit{}}
 		if x.setup() {
 			x.lines()
 			x.messages()
@@ -106,45 +106,8 @@ func pkgFunc(f *types.Func, pkg, name string) bool {
 	return f != nil && f.Pkg() != nil && f.Pkg().Path() == pkg && f.Name() == name
 }
 
-// closureOf: classify `name := func(p T) R { ... }` closures of decoderMain.
 func (x *rx) setup() bool {
 	body := x.fn.Decl.Body
-	core.Inspect(body, func(n ast.Node) bool {
-		as, ok := n.(*ast.AssignStmt)
-		if !ok || len(as.Lhs) != 1 || len(as.Rhs) != 1 {
-			return true
-		}
-		fl, ok := as.Rhs[0].(*ast.FuncLit)
-		if !ok || fl.Type.Params.NumFields() != 1 || len(fl.Type.Params.List[0].Names) != 1 {
-			return true
-		}
-		param := x.info.Defs[fl.Type.Params.List[0].Names[0]]
-		obj := core.ObjOf(x.info, as.Lhs[0])
-		// base64: the body is exactly `return <StdEncoding>.EncodeToString(param)`
-		if len(fl.Body.List) == 1 {
-			if ret, ok := fl.Body.List[0].(*ast.ReturnStmt); ok && len(ret.Results) == 1 {
-				if call, ok := ast.Unparen(ret.Results[0]).(*ast.CallExpr); ok && x.isStdB64(call) && core.ObjOf(x.info, call.Args[0]) == param {
-					x.enc[obj] = true
-				}
-			}
-		}
-		if !x.enc[obj] && len(core.Calls(fl, x.info, func(_ *ast.CallExpr, o types.Object) bool {
-			return o != nil && o.Pkg() != nil && o.Pkg().Path() == "encoding/base64"
-		})) > 0 {
-			x.other[obj] = true
-		}
-		for _, call := range core.Calls(fl, x.info, func(call *ast.CallExpr, o types.Object) bool {
-			f, _ := o.(*types.Func)
-			return pkgFunc(f, "encoding/json", "Marshal") && len(call.Args) == 1 && core.ObjOf(x.info, call.Args[0]) == param
-		}) {
-			_ = call
-			x.tojs[obj] = true
-			// marshal error must be no-return
-			c07.ErrCheck(x.c, cfgq.OfLit(x.c.Program, x.info, fl), x.info, fl, call, c07.ErrSpec{Rule: "R2.error", Key: "decoderMain/json.Marshal",
-				Consequence: "a marshalling failure must stop the run; otherwise an empty or partial line is printed for the element and the run reports success"})
-		}
-		return true
-	})
 	var ipipe types.Object
 	if ps := x.fn.Decl.Type.Params.List; len(ps) >= 1 && len(ps[0].Names) >= 1 {
 		ipipe = x.info.Defs[ps[0].Names[0]]
@@ -189,7 +152,7 @@ func (x *rx) encoded(e ast.Expr) ast.Expr {
 	if !ok || len(call.Args) != 1 {
 		return nil
 	}
-	if x.isStdB64(call) || x.enc[core.ObjOf(x.info, call.Fun)] {
+	if x.isStdB64(call) || x.kindOf(call.Fun) == "b64" {
 		return call.Args[0]
 	}
 	return nil
@@ -201,12 +164,16 @@ func (x *rx) otherB64(e ast.Expr) bool {
 		return false
 	}
 	o := core.Callee(x.info, call)
-	return x.other[core.ObjOf(x.info, call.Fun)] || o != nil && o.Pkg() != nil && o.Pkg().Path() == "encoding/base64"
+	return x.kindOf(call.Fun) == "b64other" || o != nil && o.Pkg() != nil && o.Pkg().Path() == "encoding/base64"
 }
 
 func (x *rx) entryField(e ast.Expr, name string) bool {
 	sel, ok := ast.Unparen(e).(*ast.SelectorExpr)
-	return ok && core.IsFieldNamed(x.info, sel, "BinEntry", name) && core.ObjOf(x.info, sel.X) == x.entry
+	if !ok || !core.IsFieldNamed(x.info, sel, "BinEntry", name) {
+		return false
+	}
+	o := core.ObjOf(x.info, sel.X)
+	return o != nil && (o == x.entry || x.alias[o])
 }
 
 // emit: fmt.Fprintf(&buf, "%s\n", toJson(v)); returns the buffer object and v's object.
@@ -219,7 +186,7 @@ func (x *rx) emit(n ast.Node) (buf, v types.Object, ok bool) {
 			buf = core.ObjOf(x.info, u.X)
 		}
 		if len(call.Args) == 3 {
-			if jc, isC := ast.Unparen(call.Args[2]).(*ast.CallExpr); isC && len(jc.Args) == 1 && x.tojs[core.ObjOf(x.info, jc.Fun)] {
+			if jc, isC := ast.Unparen(call.Args[2]).(*ast.CallExpr); isC && len(jc.Args) == 1 && x.kindOf(jc.Fun) == "json" {
 				v = core.ObjOf(x.info, jc.Args[0])
 			}
 		}
@@ -329,22 +296,38 @@ func (x *rx) literal(cl *ast.CompositeLit, kind string, sv, elem, idx types.Obje
 			return found
 		}, "this element's Score"}
 	}
-	for tag, val := range vals {
+	for tag, val0 := range vals {
 		if !strings.HasSuffix(tag, "64") {
 			continue
 		}
 		key := name + "/" + tag
-		arg := x.encoded(val)
 		w, known := raw[tag]
-		switch {
-		case arg == nil && x.otherB64(val):
-			x.c.Undecidedf("R1.base64", key, val.Pos(), "field %q is produced by a base64 variant other than StdEncoding.EncodeToString: `%s`", tag, x.c.Src(val))
-		case arg == nil:
-			x.c.Failf("R1.base64", key, val.Pos(), "JSON field %q must be base64.StdEncoding applied to the raw bytes; found `%s`. Witness: bytes containing 0xff (not UTF-8) are turned into U+FFFD by json.Marshal (or into '.' by the text rendering), so the original bytes cannot be recovered from the line", tag, x.c.Src(val))
-		case !known:
-			x.c.Undecidedf("R1.base64", key, val.Pos(), "no source rule for field %q of the %s line", tag, name)
+		// look through a local that holds the field's value: every value it may hold is judged
+		status, msg, pos := 0, "", val0.Pos() // 0 pass, 1 undecided, 2 fail
+		for _, val := range x.through(val0) {
+			arg := x.encoded(val)
+			st, m := 0, ""
+			switch {
+			case arg == nil && x.otherB64(val):
+				st, m = 1, fmt.Sprintf("field %q is produced by a base64 variant other than StdEncoding.EncodeToString: `%s`", tag, x.c.Src(val))
+			case arg == nil:
+				st, m = 2, fmt.Sprintf("JSON field %q must be base64.StdEncoding applied to the raw bytes; found `%s`. Witness: bytes containing 0xff (not UTF-8) are turned into U+FFFD by json.Marshal (or into '.' by the text rendering), so the original bytes cannot be recovered from the line", tag, x.c.Src(val))
+			case !known:
+				st, m = 1, fmt.Sprintf("no source rule for field %q of the %s line", tag, name)
+			case !w.src(arg):
+				st, m = 2, fmt.Sprintf("JSON field %q of the %s line must encode %s; it encodes `%s`, so the line attributes another element's bytes to this one", tag, name, w.what, x.c.Src(arg))
+			}
+			if st > status {
+				status, msg, pos = st, m, val.Pos()
+			}
+		}
+		switch status {
+		case 0:
+			x.c.Okf("R1.base64", key, pos, "JSON field %q of the %s line is the standard base64 of the right bytes", tag, name)
+		case 1:
+			x.c.Undecidedf("R1.base64", key, pos, "%s", msg)
 		default:
-			x.c.Check("R1.base64", key, val.Pos(), w.src(arg), fmt.Sprintf("JSON field %q of the %s line must encode %s; it encodes `%s`, so the line attributes another element's bytes to this one", tag, name, w.what, x.c.Src(arg)))
+			x.c.Failf("R1.base64", key, pos, "%s", msg)
 		}
 		delete(raw, tag)
 	}
@@ -353,7 +336,13 @@ func (x *rx) literal(cl *ast.CompositeLit, kind string, sv, elem, idx types.Obje
 	}
 	for tag, w := range plain {
 		val, has := vals[tag]
-		x.c.Check("R2.fields", name+"/"+tag, cl.Pos(), has && w.src(c07.Strip(x.info, val)), fmt.Sprintf("JSON field %q of the %s line must be %s", tag, name, w.what))
+		okSrc := has
+		if has {
+			for _, v := range x.through(val) {
+				okSrc = okSrc && w.src(c07.Strip(x.info, v))
+			}
+		}
+		x.c.Check("R2.fields", name+"/"+tag, cl.Pos(), okSrc, fmt.Sprintf("JSON field %q of the %s line must be %s", tag, name, w.what))
 	}
 	tv, has := vals["type"]
 	s, isC := "", false
@@ -370,23 +359,25 @@ func (x *rx) literal(cl *ast.CompositeLit, kind string, sv, elem, idx types.Obje
 			b, isB := t.Underlying().(*types.Basic)
 			return isB && b.Info()&types.IsFloat != 0
 		}
-		// a float field, or an interface field initialised with a float (json.Marshal sees the dynamic float)
-		if !isFloat(t) && !(types.IsInterface(t) && isFloat(x.info.TypeOf(vals[tag]))) {
-			continue
-		}
-		if _, isConst := x.info.Types[vals[tag]]; isConst && x.info.Types[vals[tag]].Value != nil {
-			continue
-		}
-		guarded := false
-		core.Inspect(x.fn.Decl.Body, func(n ast.Node) bool {
-			if call, ok := n.(*ast.CallExpr); ok {
-				if f := core.CalleeFunc(x.info, call); (pkgFunc(f, "math", "IsInf") || pkgFunc(f, "math", "IsNaN")) && len(call.Args) > 0 && pat.Same(x.info, call.Args[0], vals[tag]) {
-					guarded = true
-				}
+		// a float field, or an interface field that may hold a float (json.Marshal sees the dynamic float)
+		for _, val := range x.through(vals[tag]) {
+			if !isFloat(t) && !(types.IsInterface(t) && isFloat(x.info.TypeOf(val))) {
+				continue
 			}
-			return true
-		})
-		x.c.Check("R1.score", name+"/"+tag, vals[tag].Pos(), guarded, fmt.Sprintf("JSON field %q is a float taken from the RDB (`%s`) and handed to json.Marshal without an Inf/NaN guard. Witness: a sorted-set member with score +inf (ZADD k +inf m) decodes to math.Inf(1); json.Marshal fails with `unsupported value: +Inf`, the worker calls log.PanicError and decode aborts, so this and all later elements are not printed", tag, x.c.Src(vals[tag])))
+			if tv, has := x.info.Types[val]; has && tv.Value != nil {
+				continue
+			}
+			guarded := false
+			core.Inspect(x.fn.Decl.Body, func(n ast.Node) bool {
+				if call, ok := n.(*ast.CallExpr); ok {
+					if f := core.CalleeFunc(x.info, call); (pkgFunc(f, "math", "IsInf") || pkgFunc(f, "math", "IsNaN")) && len(call.Args) > 0 && pat.Same(x.info, call.Args[0], val) {
+						guarded = true
+					}
+				}
+				return true
+			})
+			x.c.Check("R1.score", name+"/"+tag, val.Pos(), guarded, fmt.Sprintf("JSON field %q is a float taken from the RDB (`%s`) and handed to json.Marshal without an Inf/NaN guard. Witness: a sorted-set member with score +inf (ZADD k +inf m) decodes to math.Inf(1); json.Marshal fails with `unsupported value: +Inf`, the worker calls log.PanicError and decode aborts, so this and all later elements are not printed", tag, x.c.Src(val)))
+		}
 	}
 }
 
@@ -498,6 +489,11 @@ func (x *rx) lines() {
 			}
 			cl := x.litOf[v]
 			okLit := cl != nil && c07.Within(cl, cc) && (rs == nil || c07.Within(cl, rs.Body))
+			if v == nil || cl == nil {
+				// the marshalling helper or the value it is given is not in a recognised form: not judged
+				x.c.Undecidedf("R2.fields", name+"/emit", p.Node().Pos(), "cannot identify the struct literal marshalled by `%s`", x.c.Src(p.Node()))
+				continue
+			}
 			x.c.Check("R2.fields", name+"/emit", p.Node().Pos(), okFmt && okLit && buf != nil && c07.Within(identPos(buf), x.loop.Body),
 				"a line is `%s\\n` of the JSON of the struct built for this element, written into the buffer of this entry")
 			if okLit {
@@ -556,28 +552,47 @@ func (x *rx) messages() {
 		"every entry taken from the input channel must send its lines to the output channel: here a path reaches the next entry without a send, so the lines of that key are lost")
 	var w []string
 	bufs := map[types.Object]bool{}
-	okVal := true
+	unknown := ""
 	for _, p := range x.g.Points(isSend) {
 		if w == nil {
 			w = x.g.Path(cfgq.Query{From: p, After: true, Target: isSend, AvoidEdge: func(b *cfg.Block, s int) bool { return b.Succs[s] == head }})
 		}
-		b := pat.Expr("_b.String()").Match(x.info, p.Node().(*ast.SendStmt).Value, nil)
-		if b == nil {
-			okVal = false
+		val := p.Node().(*ast.SendStmt).Value
+		if alts := x.through(val); len(alts) == 1 { // `line := <expr>; opipe <- line`
+			val = alts[0]
+		}
+		if b := pat.Expr("_b.String()").Match(x.info, val, nil); b != nil {
+			if o := core.ObjOf(x.info, b["_b"].(ast.Expr)); o != nil {
+				bufs[o] = true
+				continue
+			}
+		}
+		if call, ok := ast.Unparen(val).(*ast.CallExpr); ok && x.lineHelper(call) {
 			continue
 		}
-		bufs[core.ObjOf(x.info, b["_b"].(ast.Expr))] = true
+		unknown = x.c.Src(val)
 	}
 	x.c.Check("R3.one-message", "decoderMain/at-most-one", x.loop.Pos(), w == nil, "an entry's buffer is sent twice: all its lines are duplicated in the output", w...)
-	fresh := okVal && len(bufs) == 1
+	stale := false
 	for b := range bufs {
-		x.buf = b
-		fresh = fresh && b != nil && c07.Within(identPos(b), x.loop.Body)
+		if !c07.Within(identPos(b), x.loop.Body) {
+			stale = true
+		} else if x.buf == nil {
+			x.buf = b
+		}
 	}
-	x.c.Check("R3.buffer", "decoderMain/fresh-per-entry", x.loop.Pos(), fresh, "the message sent is the String() of a buffer declared inside the entry loop: a buffer shared across entries re-sends the lines of all earlier keys with every later key (duplicates)")
-	okSame := x.buf != nil
+	const freshMsg = "the message sent is the String() of a buffer declared inside the entry loop: a buffer shared across entries re-sends the lines of all earlier keys with every later key (duplicates)"
+	switch {
+	case stale:
+		x.c.Failf("R3.buffer", "decoderMain/fresh-per-entry", x.loop.Pos(), "%s", freshMsg)
+	case unknown != "" || len(bufs) > 1:
+		x.c.Undecidedf("R3.buffer", "decoderMain/fresh-per-entry", x.loop.Pos(), "cannot identify the per-entry buffer behind the message `%s`", unknown)
+	default:
+		x.c.Okf("R3.buffer", "decoderMain/fresh-per-entry", x.loop.Pos(), "%s", freshMsg)
+	}
+	okSame := true
 	for _, p := range x.g.Points(x.isEmit) {
-		if buf, _, _ := x.emit(p.Node()); buf != x.buf {
+		if buf, _, _ := x.emit(p.Node()); buf == nil || !bufs[buf] {
 			okSame = false
 		}
 	}
